@@ -1,111 +1,23 @@
-import RpgpModel.Bytes
-import RpgpModel.Stream
-import RpgpModel.Canon
-import RpgpModel.Framing
-import RpgpModel.Gen.Constants
+import RpgpModel.Proto
+import RpgpModel.Ops.C14
+import RpgpModel.Ops.C17
 /-!
 # Driver — `rpgp_model`: one request line in, one canonical answer line out.
 
-Requests are `op k1=v1 k2=v2 …`; byte strings are lowercase hex (`-` = empty), lists of byte
-strings are comma separated.  Answers: `ok:<payload>`, `err:<class>`, or `bad-request`.
+Each property contributes a handler `Rpgp.Ops.Cxx.handle : String → Args → Option String`
+(`none` = "not my op"); the first handler that answers wins.
 -/
 open Rpgp
 
-abbrev Args := List (String × String)
-
-def parseArgs (ws : List String) : Args :=
-  ws.filterMap fun w =>
-    match w.splitOn "=" with
-    | [k, v] => some (k, v)
-    | _ => none
-
-def Args.get? (a : Args) (k : String) : Option String := (a.find? (·.1 == k)).map (·.2)
-
-def Args.bytes (a : Args) (k : String) : Option Bytes := a.get? k >>= fromHex
-
-def Args.nat (a : Args) (k : String) : Option Nat := a.get? k >>= String.toNat?
-
-def parseList (s : String) : Option (List Bytes) :=
-  if s = "-" then some [] else (s.splitOn ",").mapM fromHex
-
-def Args.list (a : Args) (k : String) : Option (List Bytes) := a.get? k >>= parseList
-
-def okBytes (b : Bytes) : String := "ok:" ++ hexOrDash b
-def okBool (b : Bool) : String := if b then "ok:1" else "ok:0"
-
-def parseNatList (s : String) : Option (List Nat) :=
-  if s = "-" then some [] else (s.splitOn ",").mapM String.toNat?
-
-/-- `seed:len` test pattern -/
-def Args.pat (a : Args) (k : String) : Option Bytes := do
-  let v ← a.get? k
-  match v.splitOn ":" with
-  | [s, n] => pure (pattern (← s.toNat?) (← n.toNat?))
-  | _ => none
-
-def showCk (b : Bytes) : String :=
-  let (n, x, y) := cksum b
-  s!"{n}.{x}.{y}"
-
-def showDeframe (r : Except FrErr (Hdr × Bytes × Bytes)) : String :=
-  match r with
-  | .error .eof => "none"
-  | .error .bad => "err"
-  | .ok (h, b, rest) =>
-    let kind := match h.len with
-      | .fixed n => s!"f{n}"
-      | .part n => s!"p{n}"
-      | .indet => "i"
-    s!"ok:{if h.newFormat then 1 else 0}:{h.tag}:{kind}:{showCk b}:{showCk rest}"
-
-def handleFrame (a : Args) : Option String := do
-  let fmt ← a.nat "fmt"
-  let tag ← a.nat "tag"
-  let kind ← a.get? "kind"
-  let body ← a.pat "body"
-  let restLen ← a.nat "rest"
-  let trunc ← a.nat "trunc"
-  let seed ← (do let v ← a.get? "body"; (v.splitOn ":").head? >>= String.toNat?)
-  let rest := pattern (seed + 1) restLen
-  let framed ← match kind with
-    | "fixed" => do frameFixedAs (fmt == 1) tag (← a.nat "form") body
-    | "indet" => some ((128 + tag * 4 + 3).toUInt8 :: body)
-    | "partial" => do framePartial tag (← a.get? "segs" >>= parseNatList) body
-    | _ => none
-  let stream := framed ++ rest
-  let stream := stream.take (stream.length - trunc)
-  pure (showDeframe (deframe stream))
-
-def handle (op : String) (a : Args) : Option String :=
-  match op with
-  | "canon_hasher" => do
-    let cs ← a.list "chunks"
-    pure (okBytes (hashedText cs))
-  | "canon_reader" => do
-    let d ← a.bytes "data"
-    pure (okBytes (normalizedRead Gen.normalizedReaderWindow d))
-  | "canon_replace" => do
-    let d ← a.bytes "data"
-    pure (okBytes (replaceNewlines CRLF d))
-  | "crlf_accepts" => do
-    let cs ← a.list "chunks"
-    pure (okBool (crlfCheck cs))
-  | "frame" => handleFrame a
-  | "deframe" => do
-    let d ← a.bytes "data"
-    pure (showDeframe (deframe d))
-  | "emit" => do
-    let tag ← a.nat "tag"
-    let k ← a.nat "k"
-    let hdr ← a.bytes "hdr"
-    let body ← a.pat "body"
-    pure ("ok:" ++ showCk (emitPartial tag k hdr body))
-  | _ => none
+def handlers : List (String → Args → Option String) :=
+  [Ops.C14.handle, Ops.C17.handle]
 
 def answer (line : String) : String :=
   match line.trimAscii.toString.splitOn " " with
   | [] => "bad-request"
-  | op :: rest => (handle op (parseArgs rest)).getD "bad-request"
+  | op :: rest =>
+    let a := parseArgs rest
+    (handlers.findSome? fun h => h op a).getD "bad-request"
 
 partial def loop (hin hout : IO.FS.Stream) : IO Unit := do
   let line ← hin.getLine
